@@ -11,6 +11,7 @@ SHA-256, BIP-340 via coincurve, delegation token check):
   * a submission that is not authentic and was not stored leaves no trace
   * an authentic submission is accepted
 """
+import asyncio
 import json
 
 from hypothesis import strategies as st
@@ -29,7 +30,7 @@ MUTS = ["id-other-hex", "id-of-other-event", "id-upper", "id-mixed", "sig-nibble
         "pubkey-nibble", "pubkey-other", "pubkey-upper", "content", "created_at", "kind", "tag-elem", "tag-add",
         "ts-string", "ts-float", "ts-bool", "kind-string", "kind-float", "kind-bool", "content-nonstr", "tags-nonlist",
         "tag-nonstr", "extra-key", "missing-key", "deleg-arity", "deleg-forged", "deleg-transplant", "deleg-conditions",
-        "none"]
+        "deleg-second-forged", "deleg-second-transplant", "none"]
 
 
 def flip(h, pos=5):
@@ -49,8 +50,10 @@ def st_case(draw):
     ev = E.make(k, kind, E.T0 + draw(st.integers(0, 3)), tags, draw(st.sampled_from(["", "hello", "üñí"])))
     other = E.make((k + 1) % 3, 1, E.T0, [], "other")
     muts = draw(E.weighted((1, st.just([])), (9, st.lists(st.sampled_from(MUTS), min_size=1, max_size=3))))
+    prelude = draw(st.sampled_from(["none", "none", "same", "same-nosettle", "same+supersede"]))
+    newer = E.make(k, kind, ev["created_at"] + 10, [t for t in tags if t[0] != "delegation"], "newer version")
     return {"backend": draw(st.sampled_from(["kv", "sql"])), "path": draw(st.sampled_from(["ws", "ws", "direct"])),
-            "event": ev, "other": other, "muts": muts, "k": k}
+            "event": ev, "other": other, "muts": muts, "k": k, "prelude": prelude, "newer": newer}
 
 
 def mutate(case):
@@ -119,6 +122,18 @@ def _mutate_one(ev, m, case):
             ev["extra"] = 1
         elif m == "missing-key":
             ev.pop("sig", None)
+        elif m in ("deleg-second-forged", "deleg-second-transplant") and isinstance(ev["tags"], list):
+            # a genuine delegation tag FIRST, then a forged / transplanted one naming a victim
+            genuine = E.delegation_tag((k + 1) % 3, ev["pubkey"], "kind=%s" % ev["kind"])
+            if m == "deleg-second-forged":
+                bad = E.delegation_tag((k + 2) % 3, ev["pubkey"], "kind=%s" % ev["kind"])
+                bad[3] = flip(bad[3])
+            else:
+                bad = E.delegation_tag((k + 2) % 3, E.PKS[(k + 1) % 3], "kind=%s" % ev["kind"])
+            ev["tags"] = [t for t in ev["tags"] if not (isinstance(t, list) and t and t[0] == "delegation")] + [genuine, bad]
+            # the event is re-signed: everything about it is authentic except the second delegation tag
+            ev["id"] = E.compute_id(ev["pubkey"], ev["created_at"], ev["kind"], ev["tags"], ev["content"])
+            ev["sig"] = E.sign_id(k, ev["id"])
         elif m.startswith("deleg") and isinstance(ev["tags"], list):
             d = [t for t in ev["tags"] if isinstance(t, list) and t and t[0] == "delegation"]
             if not d:
@@ -171,10 +186,30 @@ class Authentic(Sub):
         async with H.Rig(backend) as rig:
             w = rig.conn("10.0.0.9")
             await w.send(["REQ", "w", {"since": 1}])
+            # prelude: the genuine event is known to the relay first (accepted; maybe ephemeral, superseded,
+            # or still in the writer queue when the mutant arrives)
+            pre = case.get("prelude", "none")
+            labels.append("prelude:" + pre)
+            c0 = rig.conn("10.0.0.7")
+            nosettle = None
+            if pre in ("same", "same+supersede"):
+                await c0.send(["EVENT", base])
+                if pre == "same+supersede":
+                    await c0.send(["EVENT", case["newer"]])
+            elif pre == "same-nosettle" and case["path"] == "ws":
+                nosettle = base
             before = await rig.dump()
+            nw = len(w.out)
+            if nosettle is not None:
+                before = dict(before)
+                before[base["id"]] = base  # will be stored legitimately
             ok = None
             if case["path"] == "ws":
                 c = rig.conn("10.0.0.1")
+                if nosettle is not None:
+                    c0.feed(["EVENT", nosettle])
+                    for _ in range(4):
+                        await asyncio.sleep(0)
                 fr = [json.loads(x) for x in await c.send(["EVENT", ev])]
                 oks = [f for f in fr if f[0] == "OK"]
                 if len(oks) != 1 and c.closed is None:
@@ -185,7 +220,10 @@ class Authentic(Sub):
                 ok, reason = await rig.add(ev)
             after = await rig.dump()
             new = {i: e for i, e in after.items() if i not in before}
-            pushed = [f[2] for f in w.frames() if f[0] == "EVENT"]
+            pushed = [f[2] for f in w.frames(nw) if f[0] == "EVENT"]
+            if pre != "none":
+                # pushes of the genuine prelude event itself are legitimate
+                pushed = [p for p in pushed if p != base]
             for i, e in new.items():
                 a2, why2 = E.authentic(e)
                 if not a2:
@@ -199,15 +237,15 @@ class Authentic(Sub):
                 if not a2:
                     viol.append(V("%s-inauthentic-pushed:%s" % (backend, klass(why2)), "only authentic events are forwarded",
                                   backend=backend, muts=case["muts"], pushed=e, why=why2))
-            if ok and not new and not (_eph(ev.get("kind")) and pushed):
+            if ok and not new and not (_eph(ev.get("kind")) and pushed) and not (pre != "none" and (ev == base or same(base, ev))):
                 viol.append(V("%s-ok-true-nothing-stored" % backend, "OK true means stored (or ephemeral and pushed)",
                               muts=case["muts"], event=ev))
             if ok and not auth and not new and pushed:
                 pass  # covered by inauthentic-pushed
-            if not ok and (new or pushed):
+            if not ok and (new or pushed) and not (pre != "none" and (ev == base or same(base, ev))):
                 viol.append(V("%s-refused-but-stored-or-pushed" % backend, "a refused event leaves no trace",
                               muts=case["muts"], stored=list(new), pushed=len(pushed)))
-            if auth and not ok and set(ev) == {"id", "pubkey", "created_at", "kind", "tags", "content", "sig"}:
+            if auth and not ok and pre == "none" and set(ev) == {"id", "pubkey", "created_at", "kind", "tags", "content", "sig"}:
                 viol.append(V("%s-authentic-refused" % backend, "an authentic event is accepted", event=ev, muts=case["muts"]))
             await w.disconnect()
         nt = isinstance(ev, dict) and ev != base
